@@ -215,12 +215,12 @@ class P(Prop):
         if case["op"] == "k" and case["name"] == "spline::segment":
             return "hyp_safe_run_dev (tl %s) %s" % (C.kname(case["name"]), C.zlist(case["args"]))
         if case["op"] == "spline" and len(case["knots"]) >= 4 and case["meta"].get("class") not in ("spline/malformed", "spline/rejected") \
-                and self.ID == "C04" and (sum(case["knots"][0]) % 6 == 0):
+                and self.ID == "C04" and (sum(case["knots"][0]) % 24 == 0):
             # end to end (C04_interior_float): the first interior cubic of a generated spline, from its four knots
             flat = [b for kn in case["knots"][:4] for b in kn]
             return "hyp_safe_run_dev (map interior_e [1;2;3;4]%%nat) %s" % C.zlist(flat)
         if case["op"] == "spline" and len(case["knots"]) >= 3 and case["meta"].get("class") not in ("spline/malformed", "spline/rejected") \
-                and self.ID == "C04" and (sum(case["knots"][0]) % 6 == 1):
+                and self.ID == "C04" and (sum(case["knots"][0]) % 24 == 1):
             # both end cubics (C04_ends_float): first three / last three knots
             first = [b for kn in case["knots"][:3] for b in kn]
             return "hyp_safe_run_dev (map first_e [1;2;3;4]%%nat) %s" % C.zlist(first)
